@@ -14,15 +14,15 @@ import (
 // FuncLog is a trillian.TrillianLogClient whose methods are function fields;
 // unset methods answer Unimplemented. Calls counts every RPC made.
 type FuncLog struct {
-	Calls                     int
-	QueueLeafF                func(*trillian.QueueLeafRequest) (*trillian.QueueLeafResponse, error)
-	GetInclusionProofF        func(*trillian.GetInclusionProofRequest) (*trillian.GetInclusionProofResponse, error)
-	GetInclusionProofByHashF  func(*trillian.GetInclusionProofByHashRequest) (*trillian.GetInclusionProofByHashResponse, error)
-	GetConsistencyProofF      func(*trillian.GetConsistencyProofRequest) (*trillian.GetConsistencyProofResponse, error)
-	GetLatestSignedLogRootF   func(*trillian.GetLatestSignedLogRootRequest) (*trillian.GetLatestSignedLogRootResponse, error)
-	GetEntryAndProofF         func(*trillian.GetEntryAndProofRequest) (*trillian.GetEntryAndProofResponse, error)
-	AddSequencedLeavesF       func(*trillian.AddSequencedLeavesRequest) (*trillian.AddSequencedLeavesResponse, error)
-	GetLeavesByRangeF         func(*trillian.GetLeavesByRangeRequest) (*trillian.GetLeavesByRangeResponse, error)
+	Calls                    int
+	QueueLeafF               func(*trillian.QueueLeafRequest) (*trillian.QueueLeafResponse, error)
+	GetInclusionProofF       func(*trillian.GetInclusionProofRequest) (*trillian.GetInclusionProofResponse, error)
+	GetInclusionProofByHashF func(*trillian.GetInclusionProofByHashRequest) (*trillian.GetInclusionProofByHashResponse, error)
+	GetConsistencyProofF     func(*trillian.GetConsistencyProofRequest) (*trillian.GetConsistencyProofResponse, error)
+	GetLatestSignedLogRootF  func(*trillian.GetLatestSignedLogRootRequest) (*trillian.GetLatestSignedLogRootResponse, error)
+	GetEntryAndProofF        func(*trillian.GetEntryAndProofRequest) (*trillian.GetEntryAndProofResponse, error)
+	AddSequencedLeavesF      func(*trillian.AddSequencedLeavesRequest) (*trillian.AddSequencedLeavesResponse, error)
+	GetLeavesByRangeF        func(*trillian.GetLeavesByRangeRequest) (*trillian.GetLeavesByRangeResponse, error)
 }
 
 var errUnimpl = status.Error(codes.Unimplemented, "verifkit: not scripted")
